@@ -304,6 +304,9 @@ func (c *TunClient) onRecv(role string, b []byte) {
 		}
 		b = rest
 	}
+	if c.Failed != "" {
+		return // not a tunnel: the body of an HTTP error is not protocol data
+	}
 	switch role {
 	case "ws":
 		for _, m := range c.wsd.Feed(b) {
